@@ -494,7 +494,7 @@ impl OpeningWebRtcConnection {
                 }
                 Output::Timeout(timeout) => return WebRtcEvent::Timeout { timeout },
                 Output::Event(e) => match e {
-                    Event::IceConnectionStateChange(v) =>
+                    Event::IceConnectionStateChange(v) => {
                         if v == IceConnectionState::Disconnected {
                             tracing::trace!(
                                 target: LOG_TARGET,
@@ -503,7 +503,8 @@ impl OpeningWebRtcConnection {
                                 "ice connection closed",
                             );
                             return WebRtcEvent::ConnectionClosed;
-                        },
+                        }
+                    }
                     Event::ChannelOpen(channel_id, name) => {
                         tracing::trace!(
                             target: LOG_TARGET,
